@@ -13,6 +13,10 @@ def _subst(key, env):
     def f(k):
         if k[0] in ("var", "param") and k[1] in env:
             return env[k[1]]
+        if k[0] == "field" and len(k) == 3 and k[2] == ("this",) and ("f", k[1]) in env:
+            return env[("f", k[1])]
+        if k[0] == "op" and len(k) == 4 and k[1] == "[]" and k[2][0] == "field" and k[2][2] == ("this",) and ("f", k[2][1], k[3]) in env:
+            return env[("f", k[2][1], k[3])]
         return None
     return key_subst(key, f)
 
@@ -44,7 +48,7 @@ def env_at(fn, ctx):
             declnodes.setdefault(v["declnode"], []).append((d, v))
 
     def freeze(env):
-        return tuple(sorted(env.items(), key=lambda kv: kv[0]))
+        return tuple(sorted(env.items(), key=lambda kv: repr(kv[0])))
 
     def transfer(st, b, i, e):
         nid = e[2] if isinstance(e, tuple) else e
@@ -69,6 +73,33 @@ def env_at(fn, ctx):
             tgt, rhs, op = n["args"][0], n["args"][1], n["op"]
         if tgt is not None:
             tn = fn.nodes[tgt]
+            # assignments to a field of *this (F = e, F op= e) and to a constant-indexed element of an array field (F[c] = e)
+            fkey = None
+            try:
+                tk = ctx.key(tgt, inline=False)
+            except Exception:
+                tk = None
+            if tk is not None and tk[0] == "field" and len(tk) == 3 and tk[2] == ("this",):
+                fkey = ("f", tk[1])
+                cur0 = tk
+            elif tk is not None and tk[0] == "op" and len(tk) == 4 and tk[1] == "[]" and tk[2][0] == "field" and tk[2][2] == ("this",):
+                ik = resolve_index(_subst(tk[3], env))
+                fkey = ("f", tk[2][1], ik)
+                cur0 = ("op", "[]", tk[2], ik)
+                if ik[0] != "lit":
+                    # F[variable] = ... : forget everything known about F's elements, remember this one symbolically
+                    for kk in [x for x in env if isinstance(x, tuple) and len(x) == 3 and x[0] == "f" and x[1] == tk[2][1]]:
+                        env.pop(kk, None)
+            if fkey is not None:
+                try:
+                    rk = resolve_index(_subst(ctx.key(rhs), env))
+                    if op == "=":
+                        env[fkey] = rk
+                    else:
+                        env[fkey] = ("op", op[:-1], env.get(fkey, cur0), rk)
+                except Exception:
+                    env.pop(fkey, None)
+                return freeze(env)
             if tn["k"] == "ref" and tn["dk"] in ("local", "param") and tn["d"] in tracked:
                 d = tn["d"]
                 try:
